@@ -399,13 +399,18 @@ pub fn run(tier: Tier) -> i32 {
     let stride = if quick { 8 } else { 1 };
     names.par_iter().for_each(|(p, b2)| check_name(&ctx, p, !quick && !*b2, if *b2 { 64 } else { stride }, *b2));
     // E2
-    let (extra, devs) = if quick { (2, 2) } else { (4, 3) };
-    let e2_names: Vec<Proto> = ["XX", "IK", "X1X", "N", "K1K1", "NX1"]
+    let (extra, devs) = if quick { (3, 2) } else { (5, 3) };
+    // all 38 base patterns and a psk variant of each (psk on the last message; thorough also psk0 and P-256)
+    let e2_names: Vec<Proto> = patterns::base_patterns()
         .iter()
-        .flat_map(|n| {
-            let b = patterns::base_patterns().into_iter().find(|p| p.name == *n).unwrap();
+        .flat_map(|b| {
             let last = b.msgs.len() as u8;
-            vec![Proto::new(&b, &[], DhAlg::X25519, CipherAlg::ChaChaPoly, HashAlg::Sha256).unwrap(), Proto::new(&b, &[last], DhAlg::X25519, CipherAlg::ChaChaPoly, HashAlg::Sha256).unwrap()]
+            let mut v = vec![Proto::new(b, &[], DhAlg::X25519, CipherAlg::ChaChaPoly, HashAlg::Sha256).unwrap(), Proto::new(b, &[last], DhAlg::X25519, CipherAlg::ChaChaPoly, HashAlg::Sha256).unwrap()];
+            if !quick {
+                v.push(Proto::new(b, &[0], DhAlg::X25519, CipherAlg::AesGcm, HashAlg::Blake2b).unwrap());
+                v.push(Proto::new(b, &[last.saturating_sub(1)], DhAlg::P256, CipherAlg::XChaChaPoly, HashAlg::Sha512).unwrap());
+            }
+            v
         })
         .collect();
     e2_names.par_iter().for_each(|p| {
